@@ -29,8 +29,6 @@ pub struct Program {
     pub codes: Vec<&'static str>,
     /// lint names of the warnings (WarnOnly), one per warning
     pub lints: Vec<&'static str>,
-    /// true if accept/reject legitimately depends on the file order on the pinned tree (known finding family)
-    pub order_sensitive_known: bool,
 }
 
 fn f(name: &str, text: String) -> SrcFile {
@@ -65,6 +63,7 @@ fn pick_fill(rng: &mut Rng) -> usize {
 pub const TEMPLATES: &[&str] = &[
     "clean-basic",
     "clean-cross-file",
+    "clean-module-vs-definition",
     "clean-same-names",
     "clean-nested-modules",
     "clean-rich",
@@ -92,7 +91,6 @@ pub const TEMPLATES: &[&str] = &[
     "err-redefinition",
     "err-redefinition-cross-file",
     "err-rule",
-    "err-module-vs-definition",
 ];
 
 pub fn by_class(want_clean: bool, want_warn: bool, want_err: bool) -> Vec<&'static str> {
@@ -107,7 +105,7 @@ pub fn by_class(want_clean: bool, want_warn: bool, want_err: bool) -> Vec<&'stat
 pub fn instantiate(template: &'static str, rng: &mut Rng) -> Program {
     let u = format!("{}", (b'A' + rng.below(26) as u8) as char);
     let fill = pick_fill(rng);
-    let mut p = Program { template, files: vec![], class: Class::Clean, codes: vec![], lints: vec![], order_sensitive_known: false };
+    let mut p = Program { template, files: vec![], class: Class::Clean, codes: vec![], lints: vec![] };
     match template {
         "clean-single" => {
             p.files.push(f("solo.slice", format!("module Solo{u}\n\nstruct One {{ a: int32 }}\n\n{}", filler(rng, "Solo", fill))));
@@ -325,13 +323,11 @@ pub fn instantiate(template: &'static str, rng: &mut Rng) -> Program {
             p.class = Class::Error;
             p.codes = vec!["E012", "E016", "E005", "E018", "E009"];
         }
-        "err-module-vs-definition" => {
-            // a definition that shares its scoped name with a module declared in another file
+        "clean-module-vs-definition" => {
+            // a definition that shares its scoped name with a module declared in another file: legal, and uses of the
+            // name resolve to the definition in every file order (the pinned tree let the last file win: fixed)
             p.files.push(f("k1.slice", format!("module Kn{u}\nstruct B {{ x: int32 }}\nstruct C {{ b: B }}\n")));
             p.files.push(f("k2.slice", format!("module Kn{u}::B\nstruct Z {{ q: bool }}\n")));
-            p.class = Class::Error;
-            p.codes = vec!["E017"];
-            p.order_sensitive_known = true;
         }
         other => panic!("unknown template {other}"),
     }
@@ -604,5 +600,5 @@ pub fn random_program(rng: &mut Rng, inject: u8) -> Program {
     }
     // the class follows what was actually injected (an injection that found nothing to attach to is a clean program;
     // clean random programs may carry Deprecated / BrokenDocLink warnings)
-    Program { template: "random", files, class: if extra.is_empty() { Class::Clean } else { Class::Error }, codes: vec![], lints: vec![], order_sensitive_known: false }
+    Program { template: "random", files, class: if extra.is_empty() { Class::Clean } else { Class::Error }, codes: vec![], lints: vec![] }
 }
